@@ -33,7 +33,7 @@ extern "C" fn h_siginfo(sig: c_int, info: *mut siginfo_t, ctx: *mut c_void) {
         evlog::log(kind::PREV, sig as u64, u64::MAX - 2);
         return;
     }
-    if unsafe { (*info).si_code } != libc::SI_QUEUE {
+    if unsafe { (*info).si_code } != crate::sig::SI_QUEUE {
         // every send is a sigqueue: the kernel dropped the siginfo (pending-signal quota of the user exhausted)
         NO_INFO.fetch_add(1, Ordering::SeqCst);
     }
@@ -180,7 +180,7 @@ fn child(t: &Trial, fd: i32) -> i32 {
     let tags = Arc::new(AtomicU64::new(0));
     let mk_action = |tag: u64| {
         move |info: &siginfo_t| {
-            if info.si_code != libc::SI_QUEUE {
+            if info.si_code != crate::sig::SI_QUEUE {
                 NO_INFO.fetch_add(1, Ordering::SeqCst);
             }
             let seq = crate::sig::si_value(info) as u64;
